@@ -469,7 +469,8 @@ func attrMarch(thorough bool) []desc {
 		{Lo: [3]int{1, 1, 1}, Hi: [3]int{2, 2, 2}, C: [3]int{1, 1, 1}, R: 0.3125},
 		{Lo: [3]int{2, 2, 2}, Hi: [3]int{2, 2, 2}, C: [3]int{2, 2, 2}, R: 0.01}}})
 	if thorough {
-		out = append(out, desc{Entry: "march", NFun: 2, Cutoff: planeCutoff(a, 1), MAttr: 1, CPU: 2, Fields: []fieldDesc{sphereField([3]int{42, 5, 5}, [3]int{58, 20, 20}, 15)}})
+		h := sphereField([3]int{42, 5, 5}, [3]int{58, 20, 20}, 15)
+		out = append(out, desc{Entry: "march", NFun: 2, Cutoff: planeCutoff(h, 1), MAttr: 1, CPU: 2, Fields: []fieldDesc{h}})
 		out = append(out, desc{Entry: "march", NFun: 1, Cutoff: surfaceOffset, Fields: []fieldDesc{c3, b2, a}})
 		out = append(out, desc{Entry: "march", NFun: 1, Cutoff: planeCutoff(b, 1), MAttr: 1, Fields: []fieldDesc{c3, b2, a}})
 	}
